@@ -129,6 +129,7 @@ def run(ctx):
     # the creator cache is shared by all keys of the graph, which are visited in hash order: the sort key of an event must not depend on
     # whether the cache happened to be filled before it was computed
     _C07.power_level_scan(ctx, w, "C06.creator-cache")
+    power_of_each_event(ctx, w)
     from . import controls
     controls.order(ctx, "C06.sites")
     ctx.assumptions += ["HashMap/HashSet/BinaryHeap semantics; Ord of Int, MilliSecondsSinceUnixEpoch and event ids is total",
@@ -138,6 +139,61 @@ def run(ctx):
                         "receipt and never part of a state set): for such an event get_power_level_for_sender answers users_default or the user's level depending "
                         "on whether the shared creator cache was filled before - read, not decided (pointed out by a seeding sub-agent)"]
     ctx.samples += [{"site": "resolve: all_conflicted.iter().filter(..).cloned().collect::<Vec<_>>() (control_events)", "discharge": "only fed into the graph (HashMap) of the Kahn sort"}]
+
+
+VIEW = re.compile(r"^(?:\\w+::)*(?:borrow|clone|deref|as_ref|to_owned)\\((.*)\\)$")
+
+
+def _strip_views(x):
+    while True:
+        m = VIEW.match(x)
+        if not m:
+            return x
+        x = m.group(1)
+
+
+def power_of_each_event(ctx, w):
+    """The loop over graph.keys() runs in hash order: the level recorded for a graph event must be a function of that event alone."""
+    ctx.rule("C06.power-of-each-event", "reverse_topological_power_sort: on every path, the value stored for a key of the graph (visited in hash order) is "
+                                        "get_power_level_for_sender(that same key, ..).Ok.0 computed in the same iteration - never a value remembered from another "
+                                        "event (a per-sender / per-anything cache filled in visiting order makes the sort key depend on the hash seed)")
+    f = w.fn(SR + "reverse_topological_power_sort")
+    dex = D.Dex(w.lookup, adt_discr=w.adt_discr, unroll=2, inline=lambda n: False,
+                effects=lambda n: n.endswith("::insert") or n.endswith("::entry") or n.endswith("::extend") or "get_power_level_for_sender" in n)
+    paths = dex.paths(f, [D.sym("events"), D.sym("auth_diff"), D.sym("rules"), D.sym("fetch")])
+    n_ins, bad, others = 0, [], set()
+    for p in paths:
+        for e in p.effects:
+            name = e[0].rsplit("::", 1)[-1]
+            a = U.shows(e[1])
+            if "get_power_level_for_sender" in e[0]:
+                continue
+            if name == "insert" and len(a) == 3 and re.match(r"^Iterator::next\(IntoIterator::into_iter\(HashMap::keys\(", _strip_views(a[1])):
+                n_ins += 1
+                key = _strip_views(a[1])
+                m = re.fullmatch(r"ruma_state_res::get_power_level_for_sender\((.*)\)\.Ok\.0", _strip_views(a[2]))
+                arg0 = None
+                if m:
+                    # first argument = text up to the top-level comma
+                    depth, arg0 = 0, m.group(1)
+                    for i, ch in enumerate(m.group(1)):
+                        depth += ch in "([" ; depth -= ch in ")]"
+                        if ch == "," and depth == 0:
+                            arg0 = m.group(1)[:i]
+                            break
+                if not m or _strip_views(arg0) != key:
+                    bad.append((key[-40:], a[2][:160]))
+            elif name in ("insert", "entry", "extend") and ("HashMap" in e[0] or "BTreeMap" in e[0]) and len(a) >= 2 and "get_power_level_for_sender" in " ".join(a[1:]):
+                others.add((e[0].rsplit("::", 2)[-2] + "::" + name, a[1][:80]))
+    ctx.floor("power level inserts seen on paths of reverse_topological_power_sort", n_ins, 10)
+    if bad:
+        ctx.violation("C06.power-of-each-event", "C06.power-of-each-event:value", w.where(f),
+                      f"the level stored for a graph event is not get_power_level_for_sender(<that event>): {sorted(set(bad))[:3]}")
+    elif others:
+        ctx.violation("C06.power-of-each-event", "C06.power-of-each-event:value", w.where(f),
+                      f"a sender power level is remembered under another key than the graph event it was computed for: {sorted(others)[:3]}")
+    else:
+        ctx.ok("C06.power-of-each-event", "C06.power-of-each-event:value", w.where(f), f"{n_ins} inserts on {len(paths)} paths")
 
 
 def order_sites(w, crate, table):
